@@ -104,6 +104,8 @@ def ev(body, e, leaf, depth=0):
         if isinstance(v, dict):
             if e[2] in v:
                 return v[e[2]]
+            if base[0] == 'downcast' and base[2] in ('Some', 'Ok') and str(e[2]).lstrip('#') == '0':
+                return v           # Some(x) evaluates to x itself: its payload is the same value
             raise Unknown('field %s' % e[2])
         return v
     if k == 'downcast':
@@ -119,6 +121,18 @@ def ev(body, e, leaf, depth=0):
             return ('tuple', vals)
         if e[1].endswith('Option::Some') and e[2]:
             return rec(e[2][0])
+        owner, _, vname = str(e[1]).rpartition('::')
+        adt = body.facts.adts.get(owner)
+        if adt and adt.get('kind') == 'enum' and not owner.startswith(('core::', 'alloc::')):
+            for vv in adt['variants']:
+                if vv['name'] == vname and isinstance(vv.get('discr'), int):
+                    d = {'__discr__': vv['discr']}          # a variant of a crate-local enum built in place
+                    for i, a in enumerate(e[2]):
+                        try:
+                            d[str(i)] = rec(a)
+                        except Unknown:
+                            d[str(i)] = None
+                    return d
         raise Unknown('aggr %s' % e[1])
     if k == 'binop':
         op = e[1].replace('Unchecked', '')
@@ -248,6 +262,12 @@ def ev(body, e, leaf, depth=0):
         path = e[1]
         if re.search(r'::abs$', path) and e[2]:
             return abs(rec(e[2][0]))
+        mq = re.search(r'(Option)::<.*>::(is_some|is_none)$|(Result)::<.*>::(is_ok|is_err)$', path)
+        if mq and e[2]:
+            dv = ev(body, ('discr', e[2][0]), leaf, depth + 1)          # the question is the discriminant
+            if isinstance(dv, int):
+                how = mq.group(2) or mq.group(4)
+                return int(dv == {'is_some': 1, 'is_none': 0, 'is_ok': 0, 'is_err': 1}[how])
         m = re.search(r'ops::(?:arith::)?(Add|Sub|Mul|Div|Rem)(?:<[^>]*>)?>::(add|sub|mul|div|rem)$', path)
         if m and len(e[2]) == 2:
             return ev(body, ('binop', m.group(1), e[2][0], e[2][1]), leaf, depth + 1)
